@@ -1213,6 +1213,21 @@ func (m *Manager) Unlock(ns walletdb.ReadBucket, passphrase []byte) error {
 	// Use the crypto private key to decrypt all of the account private
 	// extended keys.
 	for _, manager := range m.scopedManagers {
+		// The private keys of addresses created while locked are derived
+		// below from their account's private key, which is only
+		// decrypted for cached accounts. Make sure the accounts of all
+		// pending addresses are cached, as they may have been evicted
+		// by InvalidateAccountCache in the meantime.
+		for _, info := range manager.deriveOnUnlock {
+			_, err := manager.loadAccountInfo(
+				ns, info.managedAddr.InternalAccount(),
+			)
+			if err != nil {
+				m.lock()
+				return err
+			}
+		}
+
 		for account, acctInfo := range manager.acctInfo {
 			// Watch-only accounts imported into this manager have
 			// no private key to decrypt.
